@@ -211,6 +211,15 @@ def part_b_c(chk, tier):
                                 cvx = cvxpy_estimate(qt, data, family)
                                 if cvx is not None:
                                     fcv = float(loss.value(cvx))
+                                    # the CVXPY-backed estimate on its own: physical, optimal against the truth, exact on exact data
+                                    qo = tmpl.generate_from_var(cvx, is_physicality_required=False)
+                                    if not qo.is_physical(atol_eq_const=1e-4, atol_ineq_const=1e-4):
+                                        chk.violation("cvxpy:%s:unphysical:%s" % (cfgk, family), "the CVXPY/SCS estimate is not physical to solver accuracy [%s]" % tag, case)
+                                    ft = float(loss.value(np.asarray(tr2.to_var())))
+                                    if ft < fcv - 1e-4 * (1 + abs(fcv)):
+                                        chk.violation("cvxpy:%s:beaten_by_truth:%s" % (cfgk, family), "loss at the CVXPY/SCS estimate %.9g, at the truth %.9g [%s]" % (fcv, ft, tag), case)
+                                    if dname == "exact" and np.max(np.abs(cvx - np.asarray(tr2.to_var()))) > 5e-3:
+                                        chk.violation("cvxpy:%s:exact_data:%s" % (cfgk, family), "CVXPY/SCS on exact data of a physical object deviates by %.3g [%s]" % (float(np.max(np.abs(cvx - np.asarray(tr2.to_var())))), tag), case)
                                     if abs(fcv - f_est) > 2e-4 * (1 + abs(f_est)) and fcv < f_est:
                                         chk.violation("optimum:%s:cvxpy_lower:%s" % (cfgk, family), "CVXPY/SCS reaches loss %.9g, backtracking %.9g [%s]" % (fcv, f_est, tag), case)
                                     if np.max(np.abs(cvx - est)) > 5e-2 and abs(fcv - f_est) > 1e-3 * (1 + abs(f_est)):
